@@ -275,13 +275,15 @@ def _taint(A):
                 if e['ev'] == 'w' and e['taken']:
                     e['drop'] = True
                 i += 1
-    # F3 direction: innermost enclosing clause locally selected although an outer one is not, or the writer
-    # follows an indentation-closed block that no keyword line has closed yet (skip test consults that block)
+    # F3 direction: innermost enclosing clause locally selected although an outer one is not, or the writer follows
+    # an indentation-closed block that no keyword of an enclosing block has closed yet (the skip test consults that
+    # block; every accepted node line closes only one level)
     open_after = [False] * (n + 1)
     for b in blocks:
         if b['close'] == 'indent':
+            anc = set(c[0] for c in b['chain'])
             i = b['end'] + 1
-            while i < n and events[i]['ev'] not in ('kw', 'end', 'bad'):
+            while i < n and not (events[i]['ev'] in ('kw', 'end') and events[i]['block'] in anc):
                 open_after[i] = True
                 i += 1
     for w in writers:
@@ -290,34 +292,24 @@ def _taint(A):
                 w['add'] = True
             if open_after[w['i']]:
                 w['add'] = True
-    # F4 shape: '@end' of a block whose last clause contains an indentation-closed block that may still be open
+    # F4 shape (wide): '@end' of a block whose last clause contains an indentation-closed block
     A.f4_lines = []
     for b in blocks:
         if b['close'] != 'end':
             continue
         lo, hi = b['kw'][-1] + 1, b['end'] - 1
-        shaped = False
-        for c in blocks:
-            if c['close'] == 'indent' and lo <= c['start'] and c['end'] <= hi:
-                follows = any(events[j]['ev'] == 'w' for j in range(c['end'] + 1, hi + 1))
-                if not follows or any(lo <= blocks[s_]['start'] and blocks[s_]['end'] <= hi for s_ in A.f1_sources):
-                    shaped = True
-        if shaped:
+        if any(c['close'] == 'indent' and lo <= c['start'] and c['end'] <= hi for c in blocks):
             A.f4_lines.append(events[b['end']]['line'])
-    # F5 shape: an indentation-closed block that may still be open when a clause keyword of a block with another
-    # group path arrives (the keyword's path is compared as a string with the open path and "closes" past the root)
+    # F5 shape (wide): an indentation-closed block, and later a clause keyword of a block that does not enclose it
+    # and lives under another group path (the keyword's path is compared as a string with the still open path
+    # and "closes" past the root)
     A.f5 = False
     for b in blocks:
         if b['close'] != 'indent':
             continue
         anc = set(c[0] for c in b['chain'])
         for e in events[b['end'] + 1:]:
-            if e['ev'] != 'kw' or e['block'] in anc:
-                continue
-            if blocks[e['block']]['prefix'] == b['prefix']:
-                continue
-            closer = any(events[j]['ev'] == 'w' for j in range(b['end'] + 1, e['i']))
-            if not closer or any(blocks[s_]['end'] < e['i'] for s_ in A.f1_sources):
+            if e['ev'] == 'kw' and e['block'] not in anc and blocks[e['block']]['prefix'] != b['prefix']:
                 A.f5 = True
                 break
         if A.f5:
@@ -339,34 +331,55 @@ def _taint(A):
 # ------------------------------------------------------------------------------------------------ judging
 
 def explain_key(A, name, obs):
-    """obs: observed record or MISSING.  Returns None if not explainable, else set of mechanisms used."""
+    """obs: observed record or MISSING.  Returns None if not explainable, else the set of mechanisms used.
+
+    A writer is *forced* (expected to apply, untainted), *optional* (taken and drop-tainted: the real code may skip
+    it; not taken and add-tainted: the real code may apply it) or *impossible*.  The observed record must be what
+    some application set {forced} + subset(optional) produces: type/properties of the first applied definition,
+    value of the last applied writer.  A tainted definition may also be applied without its property line (the
+    node line is judged by a not-yet-closed inner block, the property line by the block below it)."""
     ws = [w for w in A.writers if w['name'] == name]
-    unc = [w for w in ws if (w['taken'] and w['drop']) or (not w['taken'] and w['add'])]
-    if len(unc) > 12:
-        unc = unc[:12]
+
+    def forced(w):
+        return w['taken'] and not w['drop']
+
+    def optional(w):
+        return (w['taken'] and w['drop']) or (not w['taken'] and w['add'])
+
+    if obs is MISSING or obs == MISSING:
+        if any(forced(w) for w in ws) or not any(w['taken'] for w in ws):
+            return None
+        return {'F1'}
     best = None
-    for bits in itertools.product((False, True), repeat=len(unc)):
-        flip = {id(w) for w, b in zip(unc, bits) if b}
-        eff = [w for w in ws if (w['taken'] != (id(w) in flip))]
-        rec = MISSING
-        ok = True
-        for w in eff:
-            if rec is MISSING:
-                if w['kind'] != 'def':
-                    ok = False
-                    break
-                rec = _rec(w['ty'], w['v'], w.get('p'))
-            else:
-                rec = dict(rec, v=w['v'])
-        if not ok:
+    for k, wl in enumerate(ws):
+        if wl['v'] != obs['v'] or type(wl['v']) is not type(obs['v']) or not (forced(wl) or optional(wl)):
             continue
-        if rec == obs:
-            mech = set()
-            for w in unc:
-                if id(w) in flip:
-                    mech.add('F1' if w['taken'] else 'F3')
-            if best is None or len(mech) < len(best):
-                best = mech
+        if any(forced(w) for w in ws[k + 1:]):
+            continue
+        base = [w for w in ws[:k] if w['taken']] + [wl]
+        mech = set()
+        if any(w['taken'] for w in ws[k + 1:]):
+            mech.add('F1')
+        if not wl['taken']:
+            mech.add('F3')
+        firsts = []
+        if base[0]['kind'] == 'def':
+            firsts.append((base[0], set()))
+        for d in ws[:ws.index(base[0])]:
+            if d['kind'] == 'def' and not d['taken'] and d['add']:
+                firsts.append((d, {'F3'}))
+        for j, w in enumerate(base):
+            if j > 0 and all(x['drop'] for x in base[:j]) and w['kind'] == 'def':
+                firsts.append((w, {'F1'}))
+        for f, m2 in firsts:
+            for lost in (False, True):
+                if lost and (not f.get('p') or not optional(f)):
+                    continue
+                rec = _rec(f['ty'], wl['v'], None if lost else f.get('p'))
+                if rec == obs:
+                    m = mech | m2 | (({'F1'} if f['taken'] else {'F3'}) if lost else set())
+                    if best is None or len(m) < len(best):
+                        best = m
     return best
 
 
@@ -486,8 +499,9 @@ def enum_core():
 # ------------------------------------------------------------------------------------------------ random programs
 
 class _Gen:
-    def __init__(self, rng, maxdepth, closes=('end', 'indent')):
+    def __init__(self, rng, maxdepth, closes=('end', 'indent'), clean=False):
         self.rng = rng
+        self.clean = clean
         self.maxdepth = maxdepth
         self.closes = closes
         self.nm = _Names()
@@ -522,7 +536,7 @@ class _Gen:
             p = rng.choice(['constant', 'tags', 'options', 'optlines'])
         return D(self.nm.name('n'), ty, self.value(ty), p)
 
-    def items(self, depth, scope, in_clause, nmin=1, nmax=4):
+    def items(self, depth, scope, in_clause, nmin=1, nmax=4, active=True):
         rng = self.rng
         out = []
         n = rng.randint(nmin, nmax)
@@ -530,20 +544,21 @@ class _Gen:
         for _ in range(n):
             self.nlines += 1
             r = rng.random()
-            can_block = depth < self.maxdepth and self.nblocks < self.maxblocks and self.nlines < self.maxlines and not prev_indent_block
+            can_block = depth < self.maxdepth and self.nblocks < self.maxblocks and self.nlines < self.maxlines \
+                and not prev_indent_block
             if r < 0.38 and can_block:
-                b = self.block(depth, scope)
+                b = self.block(depth, scope, active)
                 out.append(b)
                 prev_indent_block = b['close'] == 'indent'
             elif r < 0.48 and scope['gdepth'] < 2 and self.nlines < self.maxlines:
-                out.append(self.group(depth, scope, in_clause))
+                out.append(self.group(depth, scope, in_clause, active))
                 prev_indent_block = False
             else:
                 out.append(self.node(scope, in_clause))
                 prev_indent_block = False
         return out
 
-    def group(self, depth, scope, in_clause):
+    def group(self, depth, scope, in_clause, active=True):
         rng = self.rng
         name = self.nm.name('g')
         sub = dict(targets=[], gdepth=scope['gdepth'] + 1)
@@ -552,27 +567,35 @@ class _Gen:
             a = self.nm.name('k')
             its.append(D(a, 'int', self.value('int')))
             sub['targets'].append((a, 'int'))
-        its += self.items(depth, sub, in_clause, 1, 3)
+        its += self.items(depth, sub, in_clause, 1, 3, active)
         return G(name, its, rng.choice([1, 2, 2, 3, 4]))
 
-    def block(self, depth, scope):
+    def block(self, depth, scope, active=True):
         rng = self.rng
         self.nblocks += 1
         shape = rng.choice(SHAPES + [(2, False), (1, True)])
+        truths = [rng.random() < 0.5 for _ in range(shape[0])]
+        if self.clean and not active:
+            # clean profile: nothing is selected below an unselected clause (no F3 shape)
+            shape = (shape[0], False)
+            truths = [False] * shape[0]
         close = rng.choice(self.closes)
         shared = None
         if rng.random() < 0.3:
             shared = (self.nm.name('sh'), rng.choice(['int', 'str']))
         clauses = []
+        found = False
         for i in range(shape[0]):
-            its = self.items(depth + 1, scope, True, 1, 3)
+            sel = truths[i] and not found
+            found = found or truths[i]
+            its = self.items(depth + 1, scope, True, 1, 3, active and sel)
             if shared:
                 its.insert(rng.randint(0, len(its)), D(shared[0], shared[1], self.value(shared[1])))
                 its = self._fix(its)
-            clauses.append((LIT(rng.random() < 0.5), its))
+            clauses.append((LIT(truths[i]), its))
         el = None
         if shape[1]:
-            el = self.items(depth + 1, scope, True, 1, 3)
+            el = self.items(depth + 1, scope, True, 1, 3, active and not found)
             if shared:
                 el.insert(rng.randint(0, len(el)), D(shared[0], shared[1], self.value(shared[1])))
                 el = self._fix(el)
@@ -616,8 +639,24 @@ def _flat_nodes(items, out):
                 _flat_nodes(it['el'], out)
 
 
-def gen_random(rng, maxdepth=5, closes=('end', 'indent'), expressions=True):
-    g = _Gen(rng, maxdepth, closes)
+def _all_blocks(items, out):
+    for it in items:
+        if it['k'] == 'blk':
+            out.append(it)
+            for c in it['cl']:
+                _all_blocks(c['items'], out)
+            if it.get('el') is not None:
+                _all_blocks(it['el'], out)
+        elif it['k'] in ('grp', 'bad'):
+            _all_blocks(it['items'], out)
+
+
+def gen_random(rng, maxdepth=5, closes=('end', 'indent'), expressions=True, clean=False, indent_ok=True):
+    """clean=True: profile that avoids the known defective shapes (explicit @end, nothing selected below an
+    unselected clause; afterwards blocks are switched to indentation closing where that keeps the program shape-free)"""
+    if clean:
+        closes = ('end',)
+    g = _Gen(rng, maxdepth, closes, clean)
     root = dict(targets=[], gdepth=0)
     items = []
     for _ in range(rng.randint(1, 3)):
@@ -639,9 +678,41 @@ def gen_random(rng, maxdepth=5, closes=('end', 'indent'), expressions=True):
             items.append(g.node(root, False))
     items = g._fix(items)
     items = repair(items)
+    if clean and indent_ok:
+        bl = []
+        _all_blocks(items, bl)
+        rng.shuffle(bl)
+        for b in bl[:6]:
+            if rng.random() < 0.6:
+                b['close'] = 'indent'
+                try:
+                    ok = g._fix(list(items)) == items and _lists_ok(items) and analyse(items).shape_free
+                except Exception:
+                    ok = False
+                if not ok:
+                    b['close'] = 'end'
     if expressions and rng.random() < 0.6:
         decorate(items, rng)
     return dict(t='prog', fam='random', items=items)
+
+
+def _lists_ok(items):
+    """no block directly after an indentation-closed block in any list"""
+    prev = None
+    for it in items:
+        if prev is not None and prev['k'] == 'blk' and prev['close'] == 'indent' and it['k'] == 'blk':
+            return False
+        prev = it
+        if it['k'] in ('grp', 'bad'):
+            if not _lists_ok(it['items']):
+                return False
+        elif it['k'] == 'blk':
+            for c in it['cl']:
+                if not _lists_ok(c['items']):
+                    return False
+            if it.get('el') is not None and not _lists_ok(it['el']):
+                return False
+    return True
 
 
 def repair(items):
@@ -800,7 +871,7 @@ def _make_expr(rng, avail, all_names, want):
 def gen_mustfail(rng):
     """misplaced @else / @end inserted into a random program that uses explicit @end only"""
     for _ in range(50):
-        case = gen_random(rng, maxdepth=2, closes=('end',), expressions=False)
+        case = gen_random(rng, maxdepth=2, closes=('end',), expressions=False, clean=True, indent_ok=False)
         items = case['items']
         A = analyse(items)
         if A.tainted or A.model_invalid:
@@ -827,6 +898,8 @@ def gen_mustfail(rng):
                 pos += 1
         new = list(items)
         new.insert(pos, BAD(kw, body, rng.choice([2, 2, 4])))
+        if kw == 'else' and ((pos + 1 < len(new) and new[pos + 1]['k'] != 'def') or rng.random() < 0.3):
+            new.insert(pos + 1, BAD('end'))      # '@end' of the misplaced '@else'
         B2 = analyse(new)
         if B2.model_invalid:
             continue
